@@ -842,3 +842,78 @@ func VH_C15_fit_Q() {
 	vAssert("C15.canvas.fit_content_inside_margin", in)
 	vAssert("C15.canvas.fit_tight", tl && tr && tb && tt)
 }
+
+// H3c FitImage: the image, drawn through the matrix handed to the renderer, relates to the
+// rectangle as the strategy says.  Image sizes from a set (landscape, portrait, square), rectangle
+// from a table of sizes at a symbolic position, coordinate system I and IV, identity view.
+//   ImageFill:    the image box is the rectangle.
+//   ImageContain: the image box lies inside the rectangle, shares its centre, keeps the image's
+//                 aspect ratio and touches the rectangle in at least one dimension.
+//   ImageCover:   the (centrally cropped) image box is the rectangle; the crop is symmetric, in one
+//                 dimension only, keeps everything that belongs into the rectangle and less than
+//                 one pixel more on either side.
+func VH_C15_fitimage_Q() {
+	sizes := [][2]int{{4, 2}, {2, 4}, {3, 3}, {8, 2}}
+	sz := sizes[vChoose(0, len(sizes)-1)]
+	img := image.NewRGBA(image.Rect(0, 0, sz[0], sz[1]))
+	iw, ih := float64(sz[0]), float64(sz[1])
+	rx, ry := vhReal(), vhReal()
+	// the rectangle's size comes from a table (with a symbolic size the resolutions are quotients of
+	// unknowns and the crop a symbolic slice bound); its position is symbolic
+	rsizes := [][2]float64{{8, 2}, {2, 8}, {5, 5}, {6, 3}, {3, 7.5}, {7, 1.5}}
+	rs := rsizes[vChoose(0, len(rsizes)-1)]
+	rw, rh := rs[0], rs[1]
+	rect := Rect{rx, ry, rx + rw, ry + rh}
+	fit := []ImageFit{ImageFill, ImageContain, ImageCover}[vChoose(0, 2)]
+	cs := []CoordSystem{CartesianI, CartesianIV}[vChoose(0, 1)]
+	W, H := 40.0, 30.0
+	rec := &vhC15Rec{w: W, h: H}
+	c := NewContext(rec)
+	c.SetCoordSystem(cs)
+	c.FitImage(img, rect, fit)
+	vAssert("C15.fitimage.one_call", len(rec.calls) == 1 && rec.calls[0].kind == 2)
+	if len(rec.calls) != 1 {
+		return
+	}
+	m := rec.calls[0].m
+	sub := rec.calls[0].img.Bounds().Size()
+	sw, sh := float64(sub.X), float64(sub.Y)
+	a, b := m.Dot(Point{0, 0}), m.Dot(Point{sw, sh})
+	bx0, bx1 := math.Min(a.X, b.X), math.Max(a.X, b.X)
+	by0, by1 := math.Min(a.Y, b.Y), math.Max(a.Y, b.Y)
+	// the rectangle in the target's own (Cartesian I) system
+	ex0, ex1 := rect.X0, rect.X1
+	ey0, ey1 := rect.Y0, rect.Y1
+	if cs == CartesianIV {
+		ey0, ey1 = H-rect.Y1, H-rect.Y0
+	}
+	near := func(p, q float64) bool { return p-q <= 1e-9 && q-p <= 1e-9 }
+	switch fit {
+	case ImageFill:
+		vAssert("C15.fitimage.fill_is_the_rectangle", near(bx0, ex0) && near(bx1, ex1) && near(by0, ey0) && near(by1, ey1) && sub.X == sz[0] && sub.Y == sz[1])
+	case ImageContain:
+		inside := bx0 >= ex0-1e-9 && bx1 <= ex1+1e-9 && by0 >= ey0-1e-9 && by1 <= ey1+1e-9
+		centred := near(bx0+bx1, ex0+ex1) && near(by0+by1, ey0+ey1)
+		aspect := near((bx1-bx0)*ih, (by1-by0)*iw)
+		touches := near(bx1-bx0, rw) || near(by1-by0, rh)
+		vAssert("C15.fitimage.contain", inside && centred && aspect && touches && sub.X == sz[0] && sub.Y == sz[1])
+	case ImageCover:
+		isRect := near(bx0, ex0) && near(bx1, ex1) && near(by0, ey0) && near(by1, ey1)
+		// symmetric crop of whole pixels in one dimension only
+		cropX, cropY := sz[0]-sub.X, sz[1]-sub.Y
+		crop := cropX >= 0 && cropY >= 0 && cropX%2 == 0 && cropY%2 == 0 && (cropX == 0 || cropY == 0)
+		// the crop keeps at least the part of the image that belongs into the rectangle and less
+		// than one pixel more on either side (whole pixels are cropped)
+		aspect := true
+		if iw*rh > ih*rw { // the image is relatively wider: cropped in x
+			ideal := ih * rw / rh
+			aspect = sh == ih && sw >= ideal-1e-9 && sw < ideal+2
+		} else if iw*rh < ih*rw {
+			ideal := iw * rh / rw
+			aspect = sw == iw && sh >= ideal-1e-9 && sh < ideal+2
+		} else {
+			aspect = sw == iw && sh == ih
+		}
+		vAssert("C15.fitimage.cover", isRect && crop && aspect)
+	}
+}
